@@ -27,6 +27,9 @@ CHECKS = {
  "C14": dict(design="§6 C14", technique="deterministic simulation with fault injection: hostile inputs/geometries/input bytes/child behaviours/signals/exit instants vs no-panic, responsiveness and exit-hygiene audits",
    text="Whole simulated interactive sessions with hostile items (wide, combining, control, invalid bytes, empty, very long), seeded option sets (layouts, borders, margins, padding, preview positions, header, --height 1..3/adaptive, wrap, gaps, multi-line), geometry from 1x1 with resize storms, input bytes = keys, mouse reports, bracketed paste, truncated CSI and arbitrary bytes split at arbitrary points with arbitrary gaps, actions execute/execute-silent/transform/reload/preview/become/ctrl-z with child processes of seeded behaviour (instant, slow, endless, failing, not startable), SIGINT/SIGTERM, tty hang-up and every way of ending at seeded instants. Checked: no panic in any goroutine; fzf exits when asked (ctrl-c probe, SIGINT in cooked mode); at the instant Run returns the simulated tty is back in cooked mode with alternate screen, mouse and paste modes off and cursor visible, no fzf-temp-* file is left in the per-run TMPDIR and no child process is alive un-killed; every byte written to the tty is understood by the VT emulator.",
    note="Children are scripts in a simulated process table (kill(2), process groups, pipes). A foreground execute child is always finite (ctrl-c would go to it, not to fzf). Responsiveness probe presses ctrl-c up to 12 times: each malformed escape sequence queued in the decoder legitimately absorbs one key press."),
+ "C20": dict(design="§6 C20", technique="deterministic simulation: action timing x preview child behaviours x exit instants vs expected-request model and process-table invariants",
+   text="Whole simulated interactive sessions with a preview template over {n} {q} {} {+n} (sometimes {f}); seeded histories of cursor moves, query edits, selections, refresh/toggle/change-preview, preview(...), window changes and resizes, timed inside the 100 ms / 500 ms windows of the previewer protocol; preview children of seeded behaviour (instant, slow start, incremental, endless, silent, not startable, clear-screen code early/late/repeated, failing, forking shell). Invariant at every scheduler step: at most one preview process group alive un-killed. At every settle: the argv of the command that ran last equals (ordinal, query, line, selection in order) of the state at settle and the preview pane holds what it emitted. At exit: nothing alive un-killed, no temp file left.",
+   note="One-off preview(...) and hidden windows are excluded from the freshness comparison (documented one-off semantics; a command queued before the window was hidden may run to its natural end). A running command that has not produced output yet legitimately leaves the previous content in the pane."),
  "C18": dict(design="§6 C18", technique="deterministic simulation: session/operation histories with restarts (only the file survives) vs list model",
    text="Seeded sequences of sessions over one real history file (initial content missing/empty/with or without trailing newline/longer than the limit); each session parses --history/--history-size with the real option parser, performs previous/next/edit steps and at most one submit; every returned string and the file bytes after every session are compared with a list-of-strings model.",
    note="Object level (whole interactive sessions are added by the sys scenarios). No crash-point or disk-fault injection: the property quantifies over histories only."),
